@@ -94,13 +94,13 @@ Proof.
   destruct (negb (length f =? 0)%nat && forallb digitb f && nolead && (dec_val f <=? 255)) eqn:E.
   - rewrite !andb_true_iff, negb_true_iff, Nat.eqb_neq in E.
     destruct E as [[[Hlen HF] Hn] Hle].
-    rewrite (forallb_Forall _ digit) in HF by apply digitb_spec. apply Hnl in Hn.
+    rewrite (forallb_Forall _ digit) in HF by apply digitb_spec. pose proof (proj1 Hnl Hn) as Hz.
     split.
     + intros [= <-]. repeat split; try assumption; try lia. intros ->. apply Hlen. reflexivity.
     + intros (_ & _ & _ & -> & _). reflexivity.
   - split; [discriminate|]. intros (Hne & HF & Hz & -> & Hle). exfalso.
-    rewrite <- (forallb_Forall _ digit) in HF by apply digitb_spec. apply Hnl in Hz.
-    rewrite HF, Hz in E. destruct f; [congruence|]. cbn in E. lia.
+    rewrite <- (forallb_Forall _ digit) in HF by apply digitb_spec. apply (proj2 Hnl) in Hz.
+    rewrite HF, Hz in E. destruct f; [congruence|]. cbn [length Nat.eqb negb andb] in E. lia.
 Qed.
 
 Theorem valid_Ab_spec s : valid_Ab s = true <-> valid_A s.
@@ -138,7 +138,7 @@ Proof.
       * cbn [forallb]. change (hexgroupb []) with false. cbn [andb]. split; [discriminate|].
         intros (Y & HY & -> & H). destruct Y as [|y Y]; [discriminate|].
         cbn in H. injection H as <- _. apply Forall_cons in HY as [[Hy _] _]. cbn in Hy. lia.
-    + destruct (forallb hexgroupb ((c :: x) :: X)) eqn:E.
+    + cbv beta iota. destruct (forallb hexgroupb ((c :: x) :: X)) eqn:E.
       * rewrite (forallb_Forall _ hexgroup) in E by apply hexgroupb_spec. split.
         -- intros [= <-]. exists ((c :: x) :: X). auto.
         -- intros (Y & HY & -> & H). destruct Y as [|y Y]; [discriminate|].
